@@ -200,6 +200,7 @@ pub fn run_scenario(c: &mut Case, sc: &Scenario, opts: RunOpts) -> bool {
     c.l.add("exact_buffer_fills", d.cnt.exact_fills);
     c.l.add("zero_length_dest_calls", d.cnt.zero_dest_calls);
     c.l.add("step_budget_exhausted", d.cnt.budget_exhausted);
+    c.l.add("advances_after_consume_all_and_compress", d.cnt.tidy_before_advance);
     for s in &d.states {
         c.l.state(*s);
     }
